@@ -189,6 +189,10 @@ func (c *Ctx) asmSymbols(pkgPath string) (map[string]*asmSym, error) {
 
 // asmGuardCheck runs E9 for one package. Returns the number of call sites judged.
 func (c *Ctx) asmGuardCheck(rule, pkgPath string) int {
+	if c.cfg != "" {
+		// the amd64 assembly is not part of this build configuration
+		return -1
+	}
 	syms, err := c.asmSymbols(pkgPath)
 	if err != nil || len(syms) == 0 {
 		c.fail(rule, pkgPath+" assembly", nil, fmt.Sprintf("no *_amd64.s TEXT symbols found (%v)", err))
